@@ -19,16 +19,71 @@ theorem up_started {c : Cfg} {ar aq : Nat} {s : S} (h : Inv c ar aq s) (hrun : s
   have hopen := snd_open h hcl
   exact ⟨hupp, hrst, how, hopen.1, hopen.2.1, hopen.2.2.1, by rw [hopen.2.2.2, hrst]⟩
 
+/-- when the current upstream request owns no live client stream, no client stream is live at all -/
+theorem not_open_dead {c : Cfg} {ar aq : Nat} {s : S} (h : Inv c ar aq s) (hno : bodyOpen s = false) :
+    liveCount s.streams = 0 := by
+  cases hc : curStream s with
+  | none => exact allDead_liveCount (no_live_of_no_cur s h.k14 hc)
+  | some k =>
+    apply allDead_liveCount
+    simp only [allDead, List.all_eq_true, Bool.not_eq_true']
+    intro st hst
+    obtain ⟨j, hj⟩ := List.getElem?_of_mem hst
+    cases hl : st.live with
+    | false => rfl
+    | true =>
+      have hj1 : streamLive s j = true := by simp [streamLive, hj, hl]
+      have := (live_owned s h.k14 j hj1).2
+      rw [hc] at this
+      injection this with hjk
+      subst hjk
+      simp [bodyOpen, hc, hj1] at hno
+
+/-- the worker does not wait for the body: the streamed upstream body has ended (no live client stream is left), or a
+reset / the client's departure was signalled -/
+theorem not_waiting {c : Cfg} {ar aq : Nat} {s : S} (h : Inv c ar aq s) (hrun : s.running = true)
+    (hp : s.phase = .UpRecvData ∨ s.phase = .UpRecvTrailer) (hnw : bodyWait s = false) :
+    liveCount s.streams = 0 ∨ processDone s = true := by
+  cases hpd : processDone s with
+  | true => exact Or.inr rfl
+  | false =>
+    left
+    apply not_open_dead h
+    cases hb : bodyOpen s with
+    | false => rfl
+    | true =>
+      rcases hp with hp | hp <;> simp [bodyWait, hrun, hp, hb, hpd] at hnw
+
+/-- a response without data: the data phase is skipped, also while an upstream reset is pending -/
+theorem inv_skip_urd (c : Cfg) (ar aq : Nat) (s : S) (h : Inv c ar aq s) (hrun : s.running = true)
+    (hp : s.phase = .UpRecvData) (ht : respHasTrailers s.resp = true) : Inv c ar aq { s with phase := .UpRecvTrailer } := by
+  have hcl := inv_not_cleaned h hrun
+  obtain ⟨k0, k1, k2, k3, k4, k5, k6, k7, k8, k9, k10, k11, k12, k13, k14, k15, k16, k17, k18, k19, k20, k21, k22, k23, k24, k25, k26, k27, k28, k29, k30, k31, k32, k33⟩ := h
+  refine ⟨k0, k1, k2, k3, k4, k5, k6, ?_, ?_, k9, k10, k11, k12, k13, k14, ?_, ?_, ?_, ?_, ?_, k20, k21, k22, ?_, k24, k25, ?_, ?_, k28, ?_, ?_, k31, ?_, k33⟩
+  · simp only [K7, Term, hp] at k7 ⊢; grind
+  · simp only [K8, hp, upPhase] at k8 ⊢; grind
+  · simp only [K15, hp, upPhase] at k15 ⊢; grind
+  · simp only [K16, hp, upPhase] at k16 ⊢; grind
+  · simp only [K17, hp, prePhase] at k17 ⊢; grind
+  · simp only [K18, hp, fwdPhase] at k18 ⊢; grind
+  · simp only [K19, hp] at k19 ⊢; grind
+  · simp only [K23, hp] at k23 ⊢; grind
+  · simp only [K26, hp] at k26 ⊢; grind
+  · simp only [K27, hp, fwdPhase] at k27 ⊢; grind
+  · simp only [K29, hp] at k29 ⊢; grind
+  · simp only [K30, hp] at k30 ⊢; grind
+  · simp only [K32, hp, upPhase] at k32 ⊢; grind
+
 /-- phase `UpRecvData` -/
 theorem inv_work_urd (c : Cfg) (ar aq : Nat) (s : S) (h : Inv c ar aq s) (hrun : s.running = true)
-    (hp : s.phase = .UpRecvData) :
+    (hp : s.phase = .UpRecvData) (hnw : bodyWait s = false) :
     Inv c ar aq (match s.resp with
       | some r =>
         if r.hasData then finishPhase c (if processDone s || s.setupRetry then s else onUpstreamData c s (!r.hasTrailers))
         else { s with phase := s.phase.next }
       | none => { s with phase := s.phase.next }) := by
   obtain ⟨hupp, hrst, how, ho1, ho2, ho3, ho4⟩ := up_started h hrun (Or.inl hp)
-  obtain ⟨hcl, hpd, hsr, hdir, hur, hlc, htm⟩ := upCtx h hrun hupp
+  obtain ⟨hcl, hpd, hsr, hdir, _, hlcd, htm⟩ := upCtx h hrun hupp
   obtain ⟨_, hresp, _, _, _, hmore, _⟩ := h.k15 hcl hupp
   obtain ⟨r, hr⟩ : ∃ r, s.resp = some r := by
     cases hh : s.resp with
@@ -37,10 +92,28 @@ theorem inv_work_urd (c : Cfg) (ar aq : Nat) (s : S) (h : Inv c ar aq s) (hrun :
   have hmore' : r.hasData = true ∨ r.hasTrailers = true := by
     have := hmore hp; simpa [respHasMore, hr] using this
   have h8 := (h.k8 hcl).1
+  by_cases hur1 : s.upReset = true
+  · -- the streamed response was reset while the worker waited: `processError` resets the client
+    rw [hr]
+    simp only
+    by_cases hd : r.hasData = true
+    · rw [if_pos hd]
+      have e : (processDone s || s.setupRetry) = true := by simp [processDone, hur1]
+      rw [if_pos e]
+      apply finish_inv c ar aq s h hrun (by intro hh; rw [hp] at hh; cases hh) (by intro hh; rw [hp] at hh; cases hh)
+      intro h1 _; rw [hur1] at h1; cases h1
+    · rw [if_neg hd]
+      simp only [Bool.not_eq_true] at hd
+      have ht : r.hasTrailers = true := by rcases hmore' with h1 | h1; · rw [hd] at h1; cases h1
+                                           · exact h1
+      have := inv_skip_urd c ar aq s h hrun hp (by simp [respHasTrailers, hr, ht])
+      simpa [hp, Phase.next, hr] using this
+  have hur : s.upReset = false := by simpa using hur1
   -- the state once the worker moves on to the trailers
   have toTrailers : ∀ s' : S, s'.phase = .UpRecvTrailer → Base c ar aq s' → s'.running = true → s'.cleaned = false → K3 s' → K6 s' →
       s'.procDone = false → s'.setupRetry = false → s'.direct = false → s'.pass ≤ 1 → s'.upReset = false →
-      liveCount s'.streams = 0 → ((s'.perTry = false ∧ s'.global = false) ∨ s'.urr = true) → s'.resp = some r →
+      (liveCount s'.streams = 0 ∨ (s'.urr = true ∧ respHasMore s'.resp = true)) →
+      ((s'.perTry = false ∧ s'.global = false) ∨ s'.urr = true) → s'.resp = some r →
       s'.respStarted = true → r.hasTrailers = true → K24 c s' → K25 c s' → K28 s' → Inv c ar aq s' := by
     intro s' a1 a2 a3 a4 a5 a6 a7 a8 a9 a10 a11 a12 a13 a14 a15 a16 a17 a18 a19
     apply inv_up_state c ar aq s' .UpRecvTrailer a2 a3 a4 a5 a6 a7 a8 a9 a10 a11 a12 a13 _ a17 a18 a19 how
@@ -62,6 +135,10 @@ theorem inv_work_urd (c : Cfg) (ar aq : Nat) (s : S) (h : Inv c ar aq s) (hrun :
     · simp only [Bool.not_eq_true] at hdr
       have e : (processDone s || s.setupRetry) = false := by simp [processDone, hpd, hdr, hur, hsr]
       rw [if_neg (by simp [e])]
+      have hlc : liveCount s.streams = 0 := by
+        rcases not_waiting h hrun (Or.inl hp) hnw with h0 | h1
+        · exact h0
+        · simp [processDone, hpd, hdr, hur] at h1
       cases ht : r.hasTrailers with
       | false =>
         -- the data ends the response
@@ -93,27 +170,27 @@ theorem inv_work_urd (c : Cfg) (ar aq : Nat) (s : S) (h : Inv c ar aq s) (hrun :
         · intro hh; simp [hur] at hh
         · intro hh; simp [hur] at hh
         · intro _ _
-          apply toTrailers { ({ s with procDone := false, trace := s.trace ++ [Ev.dd false] } : S) with phase := s.phase.next } (by simp [hp, Phase.next]) _ hrun hcl h3' h.k6 rfl hsr hdir h8 hur hlc htm hr hrst ht h.k24 h.k25 h.k28
+          apply toTrailers { ({ s with procDone := false, trace := s.trace ++ [Ev.dd false] } : S) with phase := s.phase.next } (by simp [hp, Phase.next]) _ hrun hcl h3' h.k6 rfl hsr hdir h8 hur (Or.inl hlc) htm hr hrst ht h.k24 h.k25 h.k28
           obtain ⟨k1, k2, k4, k9, k10, k11, k12, k13, k14, k20, k21, k22, k31⟩ := hb
           exact ⟨k1, k2, k4, k9, k10, k11, k12, k13, k14, k20, k21, k22, k31⟩
   · rw [if_neg hd]
     simp only [Bool.not_eq_true] at hd
     have ht : r.hasTrailers = true := by rcases hmore' with h1 | h1; · rw [hd] at h1; cases h1
                                          · exact h1
-    apply toTrailers { s with phase := s.phase.next } (by simp [hp, Phase.next]) _ hrun hcl h.k3 h.k6 hpd hsr hdir h8 hur hlc htm hr hrst ht h.k24 h.k25 h.k28
+    apply toTrailers { s with phase := s.phase.next } (by simp [hp, Phase.next]) _ hrun hcl h.k3 h.k6 hpd hsr hdir h8 hur hlcd htm hr hrst ht h.k24 h.k25 h.k28
     obtain ⟨k1, k2, k4, k9, k10, k11, k12, k13, k14, k20, k21, k22, k31⟩ := h.base
     exact ⟨k1, k2, k4, k9, k10, k11, k12, k13, k14, k20, k21, k22, k31⟩
 
 /-- phase `UpRecvTrailer` -/
 theorem inv_work_urt (c : Cfg) (ar aq : Nat) (s : S) (h : Inv c ar aq s) (hrun : s.running = true)
-    (hp : s.phase = .UpRecvTrailer) :
+    (hp : s.phase = .UpRecvTrailer) (hnw : bodyWait s = false) :
     Inv c ar aq (match s.resp with
       | some r =>
         if r.hasTrailers then finishPhase c (if processDone s || s.setupRetry then s else onUpstreamTrailers c s)
         else { s with phase := s.phase.next }
       | none => { s with phase := s.phase.next }) := by
   obtain ⟨hupp, hrst, how, ho1, ho2, ho3, ho4⟩ := up_started h hrun (Or.inr hp)
-  obtain ⟨hcl, hpd, hsr, hdir, hur, hlc, htm⟩ := upCtx h hrun hupp
+  obtain ⟨hcl, hpd, hsr, hdir, _, _, htm⟩ := upCtx h hrun hupp
   obtain ⟨_, hresp, _, _, _, _, htr⟩ := h.k15 hcl hupp
   obtain ⟨r, hr⟩ : ∃ r, s.resp = some r := by
     cases hh : s.resp with
@@ -128,6 +205,12 @@ theorem inv_work_urt (c : Cfg) (ar aq : Nat) (s : S) (h : Inv c ar aq s) (hrun :
   rw [hrr]
   clear hr' hrr r'
   rw [if_pos ht]
+  by_cases hur1 : s.upReset = true
+  · have e : (processDone s || s.setupRetry) = true := by simp [processDone, hur1]
+    rw [if_pos e]
+    apply finish_inv c ar aq s h hrun (by intro hh; rw [hp] at hh; cases hh) (by intro hh; rw [hp] at hh; cases hh)
+    intro h1 _; rw [hur1] at h1; cases h1
+  have hur : s.upReset = false := by simpa using hur1
   by_cases hdr : s.downReset = true
   · have e : (processDone s || s.setupRetry) = true := by simp [processDone, hdr]
     rw [if_pos e]
@@ -136,6 +219,10 @@ theorem inv_work_urt (c : Cfg) (ar aq : Nat) (s : S) (h : Inv c ar aq s) (hrun :
   · simp only [Bool.not_eq_true] at hdr
     have e : (processDone s || s.setupRetry) = false := by simp [processDone, hpd, hdr, hur, hsr]
     rw [if_neg (by simp [e])]
+    have hlc : liveCount s.streams = 0 := by
+      rcases not_waiting h hrun (Or.inr hp) hnw with h0 | h1
+      · exact h0
+      · simp [processDone, hpd, hdr, hur] at h1
     have e2 : onUpstreamTrailers c s = endStream c
         { onUpstreamResponseRecvFinished c s with
           respStarted := (onUpstreamResponseRecvFinished c s).respStarted, procDone := true,
